@@ -240,12 +240,39 @@ def ir_norm(param, v):
     return n
 
 
-def build_script(owner, method, call_args, spec, prelude=""):
+def full_call_text(classes, key, shift=1):
+    """`dev.method(...)` with every parameter given positionally (sentinel values shifted, so nothing coincides with the call under test)."""
+    owner, method = key
+    sig, _ = signature_of(classes, owner, method)
+    vals = dict(SPECS[key]["values"])
+    args = []
+    for name in sig.parameters:
+        if name not in vals:
+            break
+        v = vals[name]
+        if isinstance(v, bool):
+            v = not v
+        elif isinstance(v, int):
+            v = v + shift
+        elif isinstance(v, float):
+            v = v + 0.5
+        args.append(render(v))
+    return f"dev.{method}({', '.join(args)})"
+
+
+def build_script(owner, method, call_args, spec, prelude="", prefix=None):
     lines = []
     if owner == "Button":
         lines += ["def cb():", "    pass"]
     if prelude:
         lines.append(prelude)
+    if prefix is not None and method is not None and owner != "Core":
+        # the call under test is the last statement of a block that already ran other calls on the same device: nothing of an earlier
+        # statement (its arguments, its resolved defaults) may carry over into this one
+        lines.append(DECL[owner])
+        lines.append("while True:")
+        lines += ["    " + p for p in prefix] + [f"    dev.{method}({call_args})"]
+        return "\n".join(lines) + "\n"
     if owner == "Core":
         call = f"{method}({call_args})"
         lines.append(f"r = {call}" if spec.get("expr") else call)
@@ -269,7 +296,7 @@ def find_node(program, clsname):
 STYLES = [("=", ", ", ""), (" = ", ", ", ""), (" =", ",", ""), ("= ", ",  ", " "), ("  =  ", " , ", "  "), ("\t=\t", ",\t", "")]
 
 
-def eval_shape(classes, key, posnames, kwnames, varmode=None, style=0, zero=None):
+def eval_shape(classes, key, posnames, kwnames, varmode=None, style=0, zero=None, after=False):
     """Returns (status, info): status in {'python-rejects','rejected','ok','fail'}; info carries failure or emitted text + bound key."""
     from Reduino.transpile.emitter import emit
     from Reduino.transpile.parser import parse
@@ -302,8 +329,12 @@ def eval_shape(classes, key, posnames, kwnames, varmode=None, style=0, zero=None
     eq, sep, pad = STYLES[style]
     parts = [rv(n, values[n]) for n in posnames] + [f"{n}{eq}{rv(n, values[n])}" for n in kwnames]
     call_args = pad + sep.join(parts) + pad if parts else ""
-    script = build_script(owner, method, call_args, spec, "\n".join(prelude_lines))
-    case = {"owner": owner, "method": method, "pos": posnames, "kw": kwnames, "var": sorted(k for k, v in varmode.items() if v), "script": script, "style": style, "zero": zero}
+    prefix = None
+    if after and method is not None and owner != "Core":
+        prefix = [full_call_text(classes, k2) for k2 in SPECS if k2[0] == owner and k2[1] is not None and k2[1] not in ("flash_pattern", "glyph", "melody", "animate")]
+    prefix = prefix or None
+    script = build_script(owner, method, call_args, spec, "\n".join(prelude_lines), prefix)
+    case = {"after": bool(prefix), "owner": owner, "method": method, "pos": posnames, "kw": kwnames, "var": sorted(k for k, v in varmode.items() if v), "script": script, "style": style, "zero": zero}
     try:
         prog = parse(script)
         text = emit(prog)
@@ -311,7 +342,7 @@ def eval_shape(classes, key, posnames, kwnames, varmode=None, style=0, zero=None
         return "rejected", {"case": case}
     except Exception as e:  # rejected with an error of another type: the type is C11's business, not C08's
         return "rejected", {"case": case, "other": type(e).__name__}
-    bkey = repr(sorted((k, repr(v)) for k, v in bound.arguments.items() if k not in HOST_ONLY)) + repr(sorted(case["var"]))
+    bkey = repr(sorted((k, repr(v)) for k, v in bound.arguments.items() if k not in HOST_ONLY)) + repr(sorted(case["var"])) + ("|after" if prefix else "")
     fails = []
     if "node" in spec:
         node = find_node(prog, spec["node"])
@@ -373,14 +404,21 @@ def run_shard(name, seed, tier, **kw):
         work = []
         for i, (posnames, kwnames) in enumerate(shapes_for(sig, SPECS[key]["values"])):
             styles = range(len(STYLES)) if tier != "quick" else ([0, 1 + i % (len(STYLES) - 1)] if (posnames or kwnames) else [0])
-            work += [(posnames, kwnames, sty, None) for sty in styles]
+            work += [(posnames, kwnames, sty, None, False) for sty in styles]
             supplied = list(posnames) + list(kwnames)
             if supplied:
                 # the same shape with one supplied argument at the falsy value of its type (rotating over the arguments; all of them in the thorough tier)
                 zs = supplied if tier != "quick" else [supplied[i % len(supplied)], (kwnames or supplied)[i % len(kwnames or supplied)]]
-                work += [(posnames, kwnames, 0, z) for z in dict.fromkeys(zs)]
-        for posnames, kwnames, sty, zero in work:
-            st_, info = eval_shape(classes, key, posnames, kwnames, style=sty, zero=zero)
+                work += [(posnames, kwnames, 0, z, False) for z in dict.fromkeys(zs)]
+            if key[1] is not None and len(supplied) < len(sig.parameters):
+                # a shape that leaves defaults out, placed after full calls of every method of the device in the same block
+                work.append((posnames, kwnames, 0, None, True))
+        for item in work:
+            posnames, kwnames, sty, zero = item[:4]
+            after = item[4] if len(item) > 4 else False
+            st_, info = eval_shape(classes, key, posnames, kwnames, style=sty, zero=zero, after=after)
+            if after:
+                r.count("after_other_calls")
             if sty:
                 r.count("restyled_call")
             if zero:
@@ -468,5 +506,5 @@ def replay(case):
                      "expected": "byte-identical C++", "observed": _first_diff(ta, tb)}]
         return []
     varmode = {n: True for n in case.get("var", [])}
-    st_, info = eval_shape(classes, (case["owner"], case["method"]), case["pos"], case["kw"], varmode, style=case.get("style", 0), zero=case.get("zero"))
+    st_, info = eval_shape(classes, (case["owner"], case["method"]), case["pos"], case["kw"], varmode, style=case.get("style", 0), zero=case.get("zero"), after=case.get("after", False))
     return [info] if st_ == "fail" else []
